@@ -26,3 +26,32 @@ Theorem C01_strdict_lockstep : forall (d : sdict) (v rest : bytes),
   strdict_decode d (b ++ rest) = inr (d', v, rest).
 Proof. exact strdict_roundtrip. Qed.
 Print Assumptions C01_strdict_lockstep.
+
+(* ---- record layer: one record, any schema tree, any prior state ----
+   sync T ws rs: writer state ws and reader state rs agree on every column (the reader has consumed
+   exactly what the writer had emitted before this record; T = what the frame will finally hold),
+   and on every dictionary.  wire_ok: the wire tree a is a legal encoding step from prev in state ws
+   (evaluated by the correspondence check on every record the implementation emits). *)
+From Stef Require Import Schema Wire WireOk Writer WireFactsBase WireFacts.
+
+Theorem C01_record_roundtrip : forall sizes a env t prev ws rs T fuel,
+  sync T ws rs ->
+  wire_ok sizes env t prev a ws (r_alloc rs) = true ->
+  extends T (enc env t a ws) ->
+  (height a < fuel)%nat ->
+  exists rs', dec sizes fuel env t prev rs = Ok (rs', a)
+           /\ sync T (enc env t a ws) rs'
+           /\ r_alloc rs' = alloc_after sizes env t prev a (r_alloc rs).
+Proof. exact wire_roundtrip. Qed.
+Print Assumptions C01_record_roundtrip.
+
+(* every record of a frame, in order, decoder state carried from one to the next *)
+Theorem C01_records_roundtrip : forall sizes (recs : list (rnode * wire)) env t ws rs T fuel,
+  sync T ws rs ->
+  records_ok sizes env t recs ws = true ->
+  extends T (enc_records env t recs ws) ->
+  Forall (fun pa => (height (snd pa) < fuel)%nat) recs ->
+  exists rs', dec_records sizes fuel env t (map fst recs) rs = Ok (rs', map snd recs)
+           /\ sync T (enc_records env t recs ws) rs'.
+Proof. exact wire_roundtrip_records. Qed.
+Print Assumptions C01_records_roundtrip.
